@@ -149,6 +149,11 @@ func c12Impl(c lib.Case) []string {
 			}
 			err := r.store.AddSourceSnapshot(&jobpb.SourceRunnerCheckpointCompleteRequest{CheckpointId: u(2), SourceRunnerId: "sr" + f[1], SplitStates: splits})
 			out = append(out, r.afterAck(err, before, u(2)))
+		case "redeploy":
+			// a new deployment registers its source splitter (jobs.Job.start)
+			r.splitter = &countingSplitter{}
+			r.store.RegisterSourceSplitter(r.splitter)
+			out = append(out, "ok")
 		case "current":
 			if ck := r.store.CurrentCheckpoint(); ck == nil {
 				out = append(out, "cur none")
@@ -174,12 +179,13 @@ func c12Impl(c lib.Case) []string {
 // ---- generator (pure; keeps its own small reference of what is pending to aim acknowledgements) ----
 
 type c12Ref struct {
-	cid     uint64
-	pending bool
-	ops     map[uint64]bool
-	srs     map[uint64]bool
-	sp      bool
-	pubMax  uint64
+	abandoned uint64 // id of the checkpoint abandoned by the last redeployment (0 = none)
+	cid       uint64
+	pending   bool
+	ops       map[uint64]bool
+	srs       map[uint64]bool
+	sp        bool
+	pubMax    uint64
 }
 
 func c12ShowSet(xs []uint64) string {
@@ -246,6 +252,9 @@ func c12Gen(r *lib.Rng, tier string, _ int) lib.Case {
 		}
 	}
 	pickID := func() uint64 {
+		if ref.abandoned != 0 && r.Chance(1, 3) {
+			return ref.abandoned // late acknowledgement of the checkpoint a redeployment abandoned
+		}
 		switch r.Intn(12) {
 		case 0:
 			return ref.cid + 1
@@ -315,12 +324,27 @@ func c12Gen(r *lib.Rng, tier string, _ int) lib.Case {
 				c.Tags = append(c.Tags, "bad-ack")
 			}
 		case k == 18:
-			c.Ops = append(c.Ops, "current")
+			if r.Bool() {
+				c.Ops = append(c.Ops, "current")
+				break
+			}
+			// redeployment, with or without a pending checkpoint; usually followed by a fresh round
+			c.Ops = append(c.Ops, "redeploy")
+			if ref.pending {
+				ref.abandoned = ref.cid
+				ref.pending = false
+				c.Tags = append(c.Tags, "abandon")
+			} else {
+				c.Tags = append(c.Tags, "redeploy-idle")
+			}
+			if r.Chance(3, 4) {
+				start(lib.Pick(r, []string{"create", "create", "savepoint"}))
+			}
 		default:
 			if restarts < 2 && r.Chance(1, 2) {
 				restarts++
 				c.Ops = append(c.Ops, "restart")
-				ref.pending, ref.cid = false, ref.pubMax
+				ref.pending, ref.cid, ref.abandoned = false, ref.pubMax, 0
 				c.Tags = append(c.Tags, "restart")
 			}
 		}
@@ -340,12 +364,19 @@ func c12Fixed(tier string) []lib.Case {
 		{Header: "M C12", Tags: []string{"restart", "published"}, Ops: []string{
 			"create 1 1", "opack 1 1 0", "srack 1 1 -", "create 1 1", "opack 1 2 0", "srack 1 2 -", "create 1 1", "opack 1 3 0", "srack 1 3 -",
 			"create 1 1", "restart", "current", "create 1 1", "opack 1 4 1", "srack 1 4 2", "restart", "create 1 1"}},
+		// redeployment while checkpoint 1 is pending: the next checkpoint must be 2, late acks of 1 are refused,
+		// 2 is published with the acknowledgements sent for it (seeded change C12-2 reuses id 1)
+		{Header: "M C12", Tags: []string{"abandon", "published", "bad-ack"}, Ops: []string{
+			"create 1,2 1", "opack 1 1 5", "redeploy", "create 1,2 1", "opack 2 1 6", "opack 1 2 7", "opack 2 2 8", "srack 1 1 9", "srack 1 2 3", "current"}},
+		{Header: "M C12", Tags: []string{"abandon", "redeploy-idle", "published"}, Ops: []string{
+			"redeploy", "savepoint 1 1", "redeploy", "redeploy", "opack 1 1 0", "savepoint 1 1", "srack 1 1 4", "opack 1 2 1", "srack 1 2 5",
+			"redeploy", "create 1 1", "restart", "create 1 1", "redeploy", "create 1 1", "current"}},
 		// savepoint folds into the pending checkpoint; second request refused
 		{Header: "M C12", Tags: []string{"published"}, Ops: []string{
 			"create 1 1", "savepoint 1 1", "savepoint 1 1", "create 1 1", "opack 1 1 0", "srack 1 1 1", "savepoint - -", "opack 5 2 0", "current"}},
 	}
 	// exhaustive short sequences for 2 operators + 1 runner (thorough: + 2 runners, longer)
-	alphabet := []string{"create 1,2 1", "opack 1 1 0", "opack 2 1 0", "srack 1 1 3", "opack 1 2 0", "srack 1 2 4", "opack 2 2 0", "savepoint 1,2 1"}
+	alphabet := []string{"create 1,2 1", "opack 1 1 0", "opack 2 1 0", "srack 1 1 3", "opack 1 2 0", "srack 1 2 4", "opack 2 2 0", "savepoint 1,2 1", "redeploy"}
 	depth := 4
 	if tier == "thorough" {
 		depth = 5
@@ -367,8 +398,8 @@ func c12Fixed(tier string) []lib.Case {
 func propC12() *lib.Prop {
 	return &lib.Prop{
 		ID:   "C12",
-		Corr: "Model/Store.lean (+Model/Publish.lean for restarts) ↔ storage/snapshots Store: CreateCheckpoint, CreateSavepoint, AddOperatorSnapshot, AddSourceSnapshot, LoadCheckpoint, CurrentCheckpoint, written snapshot files",
-		Rule: "cases = call sequences (assemblies of 1-4 operators / 1-3 runners, duplicate, wrong-id, foreign and late acknowledgements, savepoint requests, store restarts) on the real Store over an in-memory location; non-trivial = the sequence contains a rejected/ignored acknowledgement, a published snapshot (file decoded and compared) or a restart",
+		Corr: "Model/Store.lean (+Model/Publish.lean for restarts) ↔ storage/snapshots Store: CreateCheckpoint, CreateSavepoint, AddOperatorSnapshot, AddSourceSnapshot, RegisterSourceSplitter (redeployment), LoadCheckpoint, CurrentCheckpoint, written snapshot files",
+		Rule: "cases = call sequences (assemblies of 1-4 operators / 1-3 runners, duplicate, wrong-id, foreign and late acknowledgements, savepoint requests, redeployments with and without a pending checkpoint followed by late acknowledgements of the abandoned id, store restarts) on the real Store over an in-memory location; non-trivial = the sequence contains a rejected/ignored acknowledgement, a published snapshot (file decoded and compared) or a restart",
 		NumCases: func(tier string) int {
 			if tier == "thorough" {
 				return 20000
